@@ -52,6 +52,12 @@ def ring_programs(tier):
         for a in al:
             if not isinstance(a, Const):
                 out.append((Un("neg", a), d))
+    # destinations declared with an explicit byte order (same meaning as the
+    # native format here): computed 64-bit and signed 32-bit right-hand sides
+    for d in (Loc("q", "d_le_q"), Loc("Q", "d_le_Q"), Loc("i", "d_le_i")):
+        for e in (Bin("+", Loc("q"), Const(1)), Bin("*", Loc("i"), Const(3)), Bin("+", Reg("r", 2), Loc("Q")),
+                  Bin("-", Reg("sr", 3), Loc("b")), Un("neg", Loc("i"))):
+            out.append((e, d))
     # constants at the edges of the 32-bit immediate range (an immediate is
     # sign-extended by 64-bit instructions and 8-byte stores)
     for d in dests(tier):
@@ -126,7 +132,10 @@ def build(expr, dest):
         if isinstance(a, Loc) and a.name not in names:
             names[a.name] = a.fmt
     for n, f in names.items():
-        ns[n] = LocalVar(f)
+        # a destination named d_le_<fmt> is declared with an explicit little
+        # endian byte order: on this (little endian) host its meaning is the
+        # native format's, the generator takes a different path for it
+        ns[n] = LocalVar("<" + f if n.startswith("d_le_") else f)
 
     def program(self):
         self.owners |= {2, 3, 4, 5}
